@@ -18,7 +18,7 @@ import (
 func init() {
 	vfRegister(&vfProp{
 		id:       "C03",
-		classes:  []string{"single", "single-ccsend", "multi", "mixed"},
+		classes:  []string{"single", "single-ccsend", "multi", "mixed", "torn"},
 		gen:      c03Gen,
 		exec:     c03Exec,
 		maxSteps: 40000,
@@ -36,13 +36,21 @@ func c03Gen(class string, seed uint64, tier string) *vfScenario {
 	sc.Cfg["P"], sc.Cfg["M"] = int64(P), int64(M)
 	sc.Cfg["sizeA"] = int64(rng.IntN(6*P + 3))
 	sc.Cfg["sizeB"] = int64(rng.IntN(3*P*M + 2))
-	multi := class == "multi" || class == "mixed"
+	multi := class == "multi" || class == "mixed" || class == "torn"
 	sites := int64(1 | 2 | 4)
 	if rng.IntN(4) == 0 {
 		sites = int64(1 + rng.IntN(7))
 	}
+	if multi {
+		sites |= 4 // without f.map/f.loop the slicer's select coin shows when a read crosses EOF
+	}
 	if class == "single-ccsend" {
 		sites |= 8
+	}
+	if class == "torn" {
+		// writes park between the header and the payload of a packet; senders are gated by a probe of the write lock
+		sites |= 8
+		sc.Cfg["parkwrites"] = 1
 	}
 	sc.Cfg["sites"] = sites
 	sc.Cfg["concr"] = int64(rng.IntN(2))
@@ -50,7 +58,18 @@ func c03Gen(class string, seed uint64, tier string) *vfScenario {
 	for t := 0; t < ntasks; t++ {
 		n := 2 + rng.IntN(5)
 		for i := 0; i < n; i++ {
-			sc.Ops = append(sc.Ops, c03GenOp(rng, t, P, multi, class == "mixed"))
+			op := c03GenOp(rng, t, P, multi, class == "mixed")
+			if class == "torn" && op.K == "readat" {
+				// with cc.send active a cancelled slicer would flip a coin: keep reads inside the file
+				size := int(sc.Cfg["sizeA"])
+				if op.H == 1 {
+					size = int(sc.Cfg["sizeB"])
+				}
+				if op.H >= 10 || int(op.Off)+op.N > size {
+					op = vfOp{K: "writeat", T: t, H: 10 + t, Off: op.Off, N: op.N, B: int64(rng.IntN(1 << 20))}
+				}
+			}
+			sc.Ops = append(sc.Ops, op)
 		}
 	}
 	return sc
@@ -83,7 +102,7 @@ func c03GenOp(rng *rand.Rand, t, P int, multi, mixed bool) vfOp {
 		return vfOp{K: "fstat", T: t, H: rng.IntN(2)}
 	case x < 86:
 		return vfOp{K: "readdir", T: t, P: "/dir"}
-	case x < 94:
+	case x < 94 || (mixed && x < 97):
 		// the task's own file: slot 10+t, region owned by this op
 		return vfOp{K: "writeat", T: t, H: 10 + t, Off: int64(rng.IntN(2 * P)), N: ln(), B: int64(rng.IntN(1 << 20))}
 	default:
@@ -110,6 +129,16 @@ func c03Exec(r *vfRun) {
 		return
 	}
 	env := &vfClientEnv{sim: sim, prop: "C03", c: c, files: map[int]*File{}, tag: tag}
+	if sc.cfg("parkwrites", 0) != 0 {
+		sim.sendProbe = func() bool {
+			if c.clientConn.conn.TryLock() {
+				c.clientConn.conn.Unlock()
+				return true
+			}
+			return false
+		}
+		srv.c2s.parkWrites = true
+	}
 	// group ops per task
 	byTask := map[int][]vfOp{}
 	var tids []int
@@ -166,6 +195,10 @@ func c03Exec(r *vfRun) {
 	}
 	sim.run(allDone)
 	if sim.failed() {
+		return
+	}
+	if srv.bad != nil {
+		r.fail("C03/request-stream-torn", "framing", "client->server stream is not a sequence of whole, well-framed packets: %v", srv.bad)
 		return
 	}
 	if !allDone() {
